@@ -28,6 +28,9 @@ pub fn exec(ctx: &mut Ctx, case: &Case) {
                 for abs in [false, true] {
                     let p = format!("{}{}", if abs { "/" } else { "" }, body.join("/"));
                     ctx.evals += 1;
+                    if ctx.want_sample() {
+                        ctx.note_sample(Case::new("path").arg(&p));
+                    }
                     both_families!(ctx, Prod::Path, &p, c09);
                 }
                 let mut j = 1;
